@@ -147,34 +147,45 @@ theorem unmapped_cons_lt (s : Snap) (t : Table) (c k : Nat) (cl : SClass) (hcl :
     · rw [hid]; cases h : t.get c <;> simp_all
     · rw [Table.get_cons, hid]; simp
 
-/-- **the loop** of `Extractor::new`: take the cheapest entry; skip it if its class has an entry already; otherwise
-record it and push every parent node all of whose children now have entries (unless the parent's class has one) -/
-def loop (cf : CF) (s : Snap) (t : Table) (q : List QEntry) : Table :=
+/-- a selection outside the queue is replaced by the head (makes the loop total for every selection rule) -/
+def guardPick (x e : QEntry) (q : List QEntry) : QEntry := if x ∈ e :: q then x else e
+
+theorem guardPick_mem (x e : QEntry) (q : List QEntry) : guardPick x e q ∈ e :: q := by
+  unfold guardPick; split <;> simp_all
+
+/-- **the loop** of `Extractor::new`, for an arbitrary selection rule `pick` of the heap (`BinaryHeap` promises a greatest
+element, not which one among equals): take the selected entry; skip it if its class has an entry already; otherwise record
+it and push every parent node all of whose children now have entries (unless the parent's class has one).  (A selection
+outside the queue is replaced by the head, so that the definition is total for every `pick`.) -/
+def loopP (pick : QEntry → List QEntry → QEntry) (cf : CF) (s : Snap) (t : Table) (q : List QEntry) : Table :=
   match q with
   | [] => t
   | e :: q' =>
-    let m := minEntry e q'
+    let m := guardPick (pick e q') e q'
     let rest := (e :: q').erase m
-    if hs : (t.get m.1).isSome then loop cf s t rest
+    if hs : (t.get m.1).isSome then loopP pick cf s t rest
     else match hc : s.cls m.1 with
-      | none => loop cf s t rest
+      | none => loopP pick cf s t rest
       | some _ =>
         let t' : Table := (m.1, m.2) :: t
-        loop cf s t' (rest ++ cands cf s t' (fun n => (Node.appOcc n).any (·.id == m.1)))
+        loopP pick cf s t' (rest ++ cands cf s t' (fun n => (Node.appOcc n).any (·.id == m.1)))
 termination_by (unmapped s t, q.length)
 decreasing_by
   · apply Prod.Lex.right
-    have := minEntry_mem e q'
-    rw [List.length_erase_of_mem this]; simp
+    rw [List.length_erase_of_mem (guardPick_mem (pick e q') e q')]; simp
   · apply Prod.Lex.right
-    have := minEntry_mem e q'
-    rw [List.length_erase_of_mem this]; simp
+    rw [List.length_erase_of_mem (guardPick_mem (pick e q') e q')]; simp
   · apply Prod.Lex.left
     exact unmapped_cons_lt s t _ _ _ hc (by simpa using hs)
 
+/-- the loop with the first-among-the-cheapest rule (what the driver runs) -/
+def loop (cf : CF) (s : Snap) (t : Table) (q : List QEntry) : Table := loopP minEntry cf s t q
+
 /-- `Extractor::new`: leaves first, then the loop -/
-def dijkstra (cf : CF) (s : Snap) : Table :=
-  loop cf s [] (cands cf s [] (fun n => (Node.appOcc n).isEmpty))
+def dijkstraP (pick : QEntry → List QEntry → QEntry) (cf : CF) (s : Snap) : Table :=
+  loopP pick cf s [] (cands cf s [] (fun n => (Node.appOcc n).isEmpty))
+
+def dijkstra (cf : CF) (s : Snap) : Table := dijkstraP minEntry cf s
 
 /-! ### `Extractor::extract` at the level of costs: which e-node is taken for a class, and the tree that results
 
